@@ -3,16 +3,39 @@ import Mdsort.Model.Eval
 /-!
 # Model of the dry-run output: `matches_inspect` (match.c) and `expr_inspect` (expr.c)
 
-The display width of a byte string is a parameter (`width`): in the C locale every printable
-ASCII byte and every byte >= 0x80 has width 1 and control characters width 0 (`widthC`);
-in a UTF-8 locale it is `wcwidth` of the decoded characters.
+The display width is a parameter: `width str len` stands for `strnwidth(str, len)` of expr.c, where
+`str` is the rest of the value from the position the C pointer addresses (the C function reads a
+multibyte character to its end even when it extends beyond `len`, so the bytes after `len` matter).
+`strnwidth` below transcribes the C loop over the platform's `mbtowc` and `wcwidth` (parameters; the
+driver supplies them through the FFI under the locale of its environment).  In the C locale every
+printable ASCII byte and every byte >= 0x80 has width 1 and control characters width 0 (`widthC`).
 -/
 
 namespace Mdsort.Model
 open Mdsort
 
-/-- `strnwidth` in the C locale. -/
+/-- `strnwidth` in the C locale, of a byte string. -/
 def widthC (s : Bytes) : Nat := (s.filter fun b => b ≥ 128 || (32 ≤ b && b ≤ 126)).length
+
+/-- `strnwidth(str, len)` in the C locale (every character is one byte: nothing beyond `len` is read). -/
+def widthCn (str : Bytes) (len : Nat) : Nat := widthC (str.take len)
+
+/-- `strnwidth(str, len)` (expr.c).  `mb s` is what `mbtowc(&wc, s, MB_CUR_MAX)` answers on the
+NUL-terminated bytes `s`: `none` for -1 (invalid or incomplete sequence), `some (0, _)` at the NUL (here: the end
+of the list), `some (n, wc)` for a character of `n` bytes; `wcw wc` is `wcwidth(wc)`.  `rem` is `len - i`:
+an invalid byte counts one column and one byte; a character counts `wcwidth` columns when that is positive
+and ALL its bytes, also those beyond `len` (`rem - n` truncates at 0, the loop test `i < len` then fails). -/
+def strnwidth (mb : Bytes → Option (Nat × Nat)) (wcw : Nat → Int) (str : Bytes) (len : Nat) : Nat :=
+  go len len str 0
+where
+  go : Nat → Nat → Bytes → Nat → Nat
+    | 0, _, _, w => w
+    | fuel + 1, rem, s, w =>
+      if rem == 0 then w
+      else match mb s with
+        | none => go fuel (rem - 1) (s.drop 1) (w + 1)
+        | some (0, _) => w
+        | some (n + 1, wc) => go fuel (rem - (n + 1)) (s.drop (n + 1)) (w + (wcw wc).toNat)
 
 def spaces (n : Nat) : Bytes := List.replicate n 32
 
@@ -24,13 +47,31 @@ def lineStart (val : Bytes) (beg : Nat) : Nat → Nat → Nat
     | none => lbeg
     | some k => if lbeg + k > beg then lbeg else lineStart val beg fuel (lbeg + k + 1)
 
+/-- The two pieces `expr_inspect_prefix` prints in front of `:lno: `: `~` if the configuration path starts with HOME
+(else nothing), and the path (without HOME in the first case). -/
+def inspectPath (home confpath : Bytes) : Bytes × Bytes :=
+  if home.isPrefixOf confpath then ([126], confpath.drop home.length) else ([], confpath)
+
+/-- `:lno: ` -/
+def inspectLno (lno : Nat) : Bytes := [58] ++ (toString lno).toUTF8.toList ++ [58, 32]
+
 /-- `expr_inspect_prefix`: `~` if the configuration path starts with HOME, then `path:lno: `. -/
 def inspectPrefix (home confpath : Bytes) (lno : Nat) : Bytes :=
-  let (tilde, p) := if home.isPrefixOf confpath then ([126], confpath.drop home.length) else ([], confpath)
-  tilde ++ p ++ [58] ++ (toString lno).toUTF8.toList ++ [58, 32]
+  (inspectPath home confpath).1 ++ (inspectPath home confpath).2 ++ inspectLno lno
+
+/-- What `expr_inspect_prefix` returns (since fix 951a0f1): the bytes `fprintf` reported with the path counted in
+columns - `nwrite += n - strlen(path) + strnwidth(path, strlen(path))`, plus 1 for the `~`. -/
+def inspectPrefixWidth (width : Bytes → Nat → Nat) (home confpath : Bytes) (lno : Nat) : Nat :=
+  (inspectPath home confpath).1.length + width (inspectPath home confpath).2 (inspectPath home confpath).2.length +
+    (inspectLno lno).length
+
+/-- The columns `expr_inspect` accounts for the head `conf:lno: key: ` (since fix 951a0f1):
+`pindent = strnwidth(key, strlen(key)) + 2`, then `pindent += expr_inspect_prefix()`. -/
+def inspectHeadWidth (width : Bytes → Nat → Nat) (home confpath : Bytes) (lno : Nat) (key : Bytes) : Nat :=
+  width key key.length + 2 + inspectPrefixWidth width home confpath lno
 
 /-- `expr_inspect(ex, mh, env)`: the text printed for one match-list entry. -/
-def exprInspect (width : Bytes → Nat) (home confpath : Bytes) (mh : Match) : Bytes :=
+def exprInspect (width : Bytes → Nat → Nat) (home confpath : Bytes) (mh : Match) : Bytes :=
   if !mh.ty.isInspect then []
   else
     match mh.key, mh.val with
@@ -47,24 +88,24 @@ def exprInspect (width : Bytes → Nat) (home confpath : Bytes) (mh : Match) : B
               let l0 := lineStart val beg (val.length + 1) 0
               let lbeg := l0 + nspaces (val.drop l0)
               let line := (val.drop lbeg).takeWhile (· != 10)
-              let w := width ((val.drop beg).take (end_ - beg))
+              let w := width (val.drop beg) (end_ - beg)
               let len := if w ≥ 2 then w - 2 else 0
               let (pindent', head) :=
                 if printkey then
                   let pre := inspectPrefix home confpath mh.lno
-                  (pindent + pre.length, pre ++ key ++ [58, 32])
+                  (pindent + inspectPrefixWidth width home confpath mh.lno, pre ++ key ++ [58, 32])
                 else (pindent, spaces pindent)
               -- `beg - (lbeg - val)` is computed in size_t: when the match starts inside the skipped
               -- leading blanks it wraps and the width of the whole rest of the value is taken
               let plen := if lbeg ≤ beg then beg - lbeg else (val.length - lbeg)
-              let indent := pindent' + width ((val.drop lbeg).take plen)
+              let indent := pindent' + width (val.drop lbeg) plen
               go rest false pindent' (out ++ head ++ line ++ [10] ++ spaces indent ++ [94] ++ spaces len ++ [36, 10])
-      go mh.subs true (key.length + 2) []
+      go mh.subs true (width key key.length + 2) []
     | _, _ => []
 
 /-- `matches_inspect(ml, env)`: for every action its `path -> destination` line and, in a dry run,
 the explanation of every entry since the previous action. -/
-def matchesInspect (width : Bytes → Nat) (home confpath : Bytes) (stdinMode dryrun : Bool) (path : Bytes) (ml : MatchList) : Bytes :=
+def matchesInspect (width : Bytes → Nat → Nat) (home confpath : Bytes) (stdinMode dryrun : Bool) (path : Bytes) (ml : MatchList) : Bytes :=
   let rec go (rest : MatchList) (pending : MatchList) (out : Bytes) : Bytes :=
     match rest with
     | [] => out
